@@ -4,8 +4,23 @@ C12 — Connection lifecycle events are well formed and correctly timed (endpoin
 Model: Model/Protocol.lean (`UdpProtocol`). The theorems quantify over *every* sequence of
 incoming messages (any loss, duplication, reordering, forged or foreign packets) and polls at
 arbitrary times.
+
+`C12_event_language` (Proofs/Events.lean) is the all-sequences statement for the events one
+endpoint hands to its session: over every sequence of incoming messages, polls (after which the
+session disconnects the endpoint if it finds `Disconnected`), `send_input` calls, explicit
+disconnects and the initial `synchronize`, the events handed out form a word of
+  Synchronizing(total,1) … Synchronizing(total,total-1) Synchronized
+  (NetworkInterrupted NetworkResumed)* [NetworkInterrupted] [Disconnected]
+(Input events anywhere), with nothing after `Disconnected`. Proving it exposed defect F10 (events
+queued behind a `Disconnected` that `send_input` had queued); the theorem holds for the repaired
+code. Hypothesis `Ordinary`: incoming Input packets do not carry `disconnect_requested` — no
+endpoint ever sends one that does (`sendPendingOutput_flag`: inputs are only sent while Running).
+Per remote ADDRESS the session forwards exactly these events (`handle_event`), so this is C12's
+event grammar for sessions with one endpoint per address; timing (keep-alives, the two-second
+default) stays with the monitor.
 -/
 import GgrsModel.Proofs.Endpoint
+import GgrsModel.Proofs.Events
 
 namespace Ggrs.Endpoint
 
@@ -274,5 +289,23 @@ theorem C12_handshake (e0 e1 e' : Endpoint) (now0 : Nat) (ops : List EpOp) (n : 
   rcases hsInv_run ops e1 e' 0 n hinit hrun with ⟨h1, _⟩ | ⟨_, h2⟩
   · rw [h1] at hr; cases hr
   · exact h2
+
+end Ggrs.Endpoint
+
+namespace Ggrs.Endpoint
+
+/-- **C12, event language (endpoint level, all sequences).** -/
+theorem C12_event_language (handles : List Nat) (peerAddr numPlayers localPlayers maxPrediction dt dn fps : Nat)
+    (desync : Option Nat) (magic now : Nat) (y : Endpoint × List ProtoEvent)
+    (hrun : EvStar (Endpoint.new handles peerAddr numPlayers localPlayers maxPrediction dt dn fps desync magic now, []) y) :
+    ∃ ls, accList (.sync 0) y.2 = some ls := by
+  have h0 : EvInv (Endpoint.new handles peerAddr numPlayers localPlayers maxPrediction dt dn fps desync magic now, []) :=
+    ⟨.sync 0, .sync 0, rfl, rfl, Or.inr ⟨rfl, rfl, Or.inl ⟨rfl, rfl⟩⟩⟩
+  obtain ⟨ls, _, h1, _⟩ := EvInv_run _ y h0 hrun
+  exact ⟨ls, h1⟩
+
+/-- The automaton really rejects the malformed streams: two examples (the second is F10's). -/
+example : accList (.sync 0) [.synchronized] = none := by decide
+example : accList (.running true) [.disconnected, .networkResumed] = none := by decide
 
 end Ggrs.Endpoint
